@@ -188,9 +188,15 @@ def check_script(kind, script, err, resolved, records, unknown):
                 exp = None  # per-core memory undefined without a core count: any value derived from the total is acceptable, a crash is not
             else:
                 exp = f"{int(m.group(1)) // int(cores)}{m.group(2)}"
+        same_meaning = set()
+        if opt == "walltime" and isinstance(want, (int, float)) and not isinstance(want, bool) and kind in ("slurm", "sge"):
+            # a bare number means minutes to sbatch and seconds to SGE's h_rt: the equivalent clock spellings say the same thing
+            secs = int(want * (60 if kind == "slurm" else 1))
+            hms = (secs // 3600, secs % 3600 // 60, secs % 60)
+            same_meaning = {"%02d:%02d:%02d" % hms, "%d:%02d:%02d" % hms} | ({"%d:%02d" % (secs // 60, secs % 60)} if kind == "slurm" else set())
         if got is None:
             problems.append(f"option {opt}={want!r}: no directive")
-        elif exp is not None and got[0] != exp:
+        elif exp is not None and got[0] != exp and got[0] not in same_meaning:
             problems.append(f"option {opt}: directive says {got[0]!r}, resolved value is {exp!r}")
     if kind == "lsf" and "_R" in found and resolved.get("memory") is not None:
         if str(resolved["memory"]) not in found["_R"][0]:
@@ -385,6 +391,13 @@ def run(ctx):
     for kind in ("slurm", "sge", "lsf"):
         for opt in DEFAULTS[kind]:
             opt_items.append((kind, opt, *vals[opt]))
+    # the same options given as bare numbers: the directive carries the number as written (each scheduler reads a bare number its own
+    # way — sbatch: minutes, SGE h_rt: seconds — so reformatting one is changing it)
+    numeric = {"walltime": (90, 30), "memory": (4096, 512)}
+    for kind in ("slurm", "sge", "lsf"):
+        for opt, (a, b) in numeric.items():
+            if opt in DEFAULTS[kind] and (kind, opt) != ("sge", "memory"):  # SGE memory is documented as a string with a unit and is divided by the core count
+                opt_items.append((kind, opt, a, b))
     ctx.pmap(me, "options_batch", opt_items, chunk=1)
     ctx.pmap(me, "sge_memory_batch", [(m, c) for m in ("absent", "8g", "9g", "1000m", None) for c in ("absent", 1, 2, 4, None)], chunk=5)
     sp = specs(3 if quick else 4)
@@ -420,6 +433,9 @@ def replay(case):
         v = {"cores": (2, 8), "memory": ("4g", "16g"), "walltime": ("02:00:00", "10:00:00"), "queue": ("short", "long"), "account": ("projA", "projB"), "nodes": (1, 0),
              "constraint": ("c1", "c2"), "mail_type": ("END", "FAIL"), "mail_user": ("a@x", "b@y"), "qos": ("q1", "q2"), "gres": ("gpu:1", "gpu:2")}[opt]
         acc.MAX_VIOL_PER_SIG = 1000
+        given = [x for x in case["sources"] if x not in ("absent", None)] if isinstance(case["sources"], list) else []
+        if given and all(isinstance(x, (int, float)) and not isinstance(x, bool) for x in given) and opt in ("walltime", "memory"):
+            v = {"walltime": (90, 30), "memory": (4096, 512)}[opt]
         options_batch(acc, [(case["backend"], opt, *v)])
         return [x for x in acc.violations if x["case"]["option"] == case["option"] and json.dumps(x["case"]["sources"]) == json.dumps(case["sources"])]
     if k == "sge_memory":
